@@ -8,6 +8,7 @@ import json
 import os
 import random
 import signal
+import time
 import sys
 import typing as t
 
@@ -58,6 +59,8 @@ def _on_vtalrm(signum, frame):
 @contextlib.contextmanager
 def cpu_limit(seconds: float):
     """Run the body under a process-CPU-time budget (immune to machine load)."""
+    outer_left = signal.getitimer(signal.ITIMER_VIRTUAL)[0]  # an enclosing cpu_limit, if any
+    t0 = time.process_time()
     old = signal.signal(signal.SIGVTALRM, _on_vtalrm)
     signal.setitimer(signal.ITIMER_VIRTUAL, seconds)
     try:
@@ -65,6 +68,8 @@ def cpu_limit(seconds: float):
     finally:
         signal.setitimer(signal.ITIMER_VIRTUAL, 0)
         signal.signal(signal.SIGVTALRM, old)
+        if outer_left > 0:  # re-arm the enclosing budget with what is left of it
+            signal.setitimer(signal.ITIMER_VIRTUAL, max(outer_left - (time.process_time() - t0), 0.05))
 
 
 def jsonable(o: t.Any, depth: int = 0) -> t.Any:
@@ -118,9 +123,12 @@ class Acc:
         self.nt_overflow = 0
         self.notes: t.List[str] = []
         self.extra: t.Dict[str, t.Any] = {}
+        self.case_budget = 0.0  # CPU-seconds per case (set by the worker): a case that never returns becomes a violation
 
     def case(self, n: int = 1):
         self.evaluations += n
+        if self.case_budget:
+            signal.setitimer(signal.ITIMER_VIRTUAL, self.case_budget)
 
     def count(self, key: str, n: int = 1):
         self.counters[key] += n
